@@ -340,7 +340,9 @@ static int nschemas = 0;
 #define MAXCTX 4
 static long simple_int[MAXCTX][8];
 static double simple_float[MAXCTX][8];
-static cfg_bool_t simple_bool[MAXCTX][8];
+/* (8-byte slots: the library reaches every such variable through a cfg_value_t pointer, which
+ * UBSan reports as misaligned for a 4-byte cfg_bool_t at an odd slot; no property covers that) */
+static struct { cfg_bool_t b; } __attribute__((aligned(8))) simple_bool[MAXCTX][8];
 static char *simple_str[MAXCTX][8];
 static int nsimple = 0;
 
@@ -805,7 +807,7 @@ static void simple_release(int ci)
 			vf_live_blocks--;
 		}
 		simple_str[ci][k] = NULL;
-		simple_int[ci][k] = 0; simple_float[ci][k] = 0; simple_bool[ci][k] = 0;
+		simple_int[ci][k] = 0; simple_float[ci][k] = 0; simple_bool[ci][k].b = 0;
 	}
 }
 
@@ -1018,7 +1020,7 @@ int main(int argc, char **argv)
 					switch (so->type) {
 					case CFGT_INT: so->simple_value.number = &simple_int[ci][sl]; break;
 					case CFGT_FLOAT: so->simple_value.fpnumber = &simple_float[ci][sl]; break;
-					case CFGT_BOOL: so->simple_value.boolean = &simple_bool[ci][sl]; break;
+					case CFGT_BOOL: so->simple_value.boolean = &simple_bool[ci][sl].b; break;
 					default: so->simple_value.string = &simple_str[ci][sl]; break;
 					}
 				}
